@@ -2,11 +2,11 @@
 \* create, build map, insert, remove, clone, make replaceable, snapshot, replace, drop in every order
 SPECIFICATION Spec
 CONSTANTS
-  Kinds = {"owned", "raw"}
+  Kinds = {"owned", "raw", "failed_build", "failed_wrap"}
   MaxMaps = 2
   MaxSlots = 5
   MaxOps = 6
-INVARIANTS MappedIffReachable UnmapOnce RawNeverUnmapped NoDangling
+INVARIANTS MappedIffReachable UnmapOnce RawNeverUnmapped NoDangling FailedNeverMapped
 CONSTRAINT Bounded
 VIEW View
 CHECK_DEADLOCK FALSE
